@@ -148,6 +148,16 @@ def rust_module(idx, d, skel):
                     w('            Ok(Err((o, e))) => { self.h = Holder_::T(o.into_t()); rt::gerr_str(&e) }')
                     w('            Err(p) => rt::panic_str(p) } }')
     w('        (t, _) => { self.h = Holder_::T(t); "nomethod".to_string() } } }')
+    if is_async:
+        # the future of a typed call, created and dropped without a single poll
+        w('      ("unpolled", Holder_::T(t)) => { let pl = rt::pl_of(&op.a2); match (t, op.a1.as_str()) {')
+        for s in leaves:
+            for ev in events:
+                if ev in methods.get(s, []):
+                    arg = 'P(pl.unwrap_or(0))' if smgen.event_payload(d, ev) else ''
+                    w('        (Typed_::%s(m), "%s") => { match catch_unwind(AssertUnwindSafe(move || { let f = m.%s(%s); drop(f); })) { Ok(()) => "abandoned".to_string(), Err(p) => rt::panic_str(p) } }'
+                      % (s, ev, ev, arg))
+        w('        (t, _) => { self.h = Holder_::T(t); "nomethod".to_string() } } }')
     # typed mut via Option accessor
     w('      ("mut", Holder_::T(mut t)) => { let v: u64 = op.a2.parse().unwrap(); let r = match op.a1.as_str() {')
     for (s, ty) in specs:
@@ -179,6 +189,17 @@ def rust_module(idx, d, skel):
             w('        let r = catch_unwind(AssertUnwindSafe(|| d.handle(ev)));')
             w('        self.h = Holder_::D(d);')
             w('        match r { Ok(Ok(())) => "ok".to_string(), Ok(Err(e)) => rt::derr_str(&e), Err(p) => rt::panic_str(p) } }')
+        if is_async:
+            w('      ("unpolled", Holder_::D(mut d)) => { let pl = rt::pl_of(&op.a2); let ev = match op.a1.as_str() {')
+            for ev in events:
+                if smgen.event_payload(d, ev):
+                    w('          "%s" => %sEvent::%s(P(pl.unwrap_or(0))),' % (ev, name, to_pascal(ev)))
+                else:
+                    w('          "%s" => %sEvent::%s,' % (ev, name, to_pascal(ev)))
+            w('          _ => { self.h = Holder_::D(d); return "badop".to_string(); } };')
+            w('        let r = catch_unwind(AssertUnwindSafe(|| { let f = d.handle(ev); drop(f); }));')
+            w('        self.h = Holder_::D(d);')
+            w('        match r { Ok(()) => "abandoned".to_string(), Err(p) => rt::panic_str(p) } }')
         w('      ("set", Holder_::D(mut d)) => { let v: u64 = op.a2.parse().unwrap(); let r = match op.a1.as_str() {')
         for (s, ty) in specs:
             w('        "%s" => match d.set_%s_data(%s(v)) { Ok(()) => "ok".to_string(), Err(e) => rt::derr_str(&e) },' % (s, to_snake(s), ty))
@@ -303,6 +324,8 @@ def op_text(op):
         return 'intodyn'
     if k == 'drop':
         return 'drop'
+    if k == 'unpolled':
+        return 'unpolled %s %s' % (op[1], '-' if op[2] is None else op[2])
     raise ValueError(op)
 
 
@@ -331,6 +354,8 @@ def op_coq(op):
         return 'OIntoDyn'
     if k == 'drop':
         return 'ODrop'
+    if k == 'unpolled':
+        return '(OUnpolled "%s" %s)' % (op[1], on(op[2]))
     raise ValueError(op)
 
 
